@@ -814,6 +814,16 @@ func init() {
 					one("names-lists", []byte(src), i*(cliEvery/2)) // every 2nd also through the CLI
 				}
 			}
+			for i, src := range c03BOMSources(progs) {
+				if c.Mine(i) {
+					one("bom", []byte(src), i*(cliEvery/4))
+				}
+			}
+			for i, src := range c03LateTyping() {
+				if c.Mine(i) {
+					one("late-typing", []byte(src), i*(cliEvery/10))
+				}
+			}
 			for i := 0; i < total; i++ {
 				switch r := rng.Intn(100); {
 				case r < 40:
@@ -849,4 +859,64 @@ func init() {
 			fmt.Printf("source: %q\nparsed_ok=%v error=%d:%d %s\n", core.Clip(string(cs.Src), 400), res.parsedOK, res.errLine, res.errCol, res.errMsg)
 		},
 	})
+}
+
+// c03BOMSources: program text that begins with (or contains) a UTF-8 byte order mark, as saved by
+// some editors. Whatever the lexer makes of those three bytes, every later token and every error
+// position must still be the true byte position in the text that was given.
+func c03BOMSources(progs []string) []string {
+	bom := "\xef\xbb\xbf"
+	tails := []string{
+		"BEGIN { foo = bar*; }\n", "BEGIN { print 1 }\n", "{ print $1 }\n", "BEGIN { x = 1\n  y = \n}\n", "function f(a) { a[1] }\nBEGIN { f(1) }\n",
+		"# comment\nBEGIN { print \"a\" }\n", "\nBEGIN { print }\n", "  BEGIN{x=\"unterminated\n}", "/re/ { n++ } END { print n }\n", "BEGIN { $ }", "",
+	}
+	for i, p := range progs {
+		if i%7 == 0 && len(p) < 600 {
+			tails = append(tails, p)
+		}
+	}
+	var out []string
+	for _, t := range tails {
+		out = append(out, bom+t, bom+bom+t, "\xef\xbb"+t, "\xef"+t, "\xbb\xbf"+t, " "+bom+t, "\n"+bom+t, bom+"\r\n"+t, "\xfe\xff"+t, "\xff\xfe"+t)
+		if len(t) > 8 {
+			out = append(out, t[:8]+bom+t[8:])
+		}
+	}
+	return out
+}
+
+// c03LateTyping: programs whose scalar/array conflict becomes visible only after several
+// propagation rounds of the resolver (a parameter nothing in the body types, called with a
+// constant in one place and with a variable that is used as an array elsewhere), in every
+// order of the statements involved. The outcome must be an error with a position (or an
+// accepted program), never a panic from a later stage that trusted the typing.
+func c03LateTyping() []string {
+	bodies := []string{"", "return 1", "g(a)", "if (0) a = a", "return length(a)"}
+	arrUses := []string{"arr[1] = 2", "split(\"x y\", arr)", "delete arr", "for (k in arr) n++", "x = (1 in arr)", "h(arr)"}
+	consts := []string{"f(1)", "f(\"s\")", "f(x + 1)", "f($1)", "f(NR)", "f(f(2))"}
+	perms := [][3]int{{0, 1, 2}, {0, 2, 1}, {1, 0, 2}, {1, 2, 0}, {2, 0, 1}, {2, 1, 0}}
+	var out []string
+	for bi, b := range bodies {
+		for ai, au := range arrUses {
+			for ci, cu := range consts {
+				if (bi+ai+ci)%2 == 1 {
+					continue
+				}
+				for _, pm := range perms {
+					st := [3]string{cu, "f(arr)", au}
+					src := "function f(a) { " + b + " }\nfunction g(b) { }\nfunction h(c) { c[1] = 1 }\nBEGIN { " + st[pm[0]] + "; " + st[pm[1]] + "; " + st[pm[2]] + " }\n"
+					out = append(out, src)
+				}
+			}
+		}
+	}
+	// the same through a chain of forwarding functions and through two parameters
+	out = append(out,
+		"function f(a) { }\nfunction k(p) { f(p) }\nBEGIN { k(1); k(arr); arr[1] = 2 }\n",
+		"function f(a, b) { }\nBEGIN { f(1, q); f(q, 1); q[1] = 1 }\n",
+		"function f(a, b) { }\nBEGIN { f(u, v); f(v, u); f(1, 2); u[1]; }\n",
+		"function f(a) { }\nBEGIN { f(1) }\nEND { f(arr); arr[1] = 2 }\n",
+		"function f(a) { }\n{ f($0); f(arr) }\nEND { delete arr }\n",
+	)
+	return out
 }
